@@ -47,6 +47,9 @@ func stressMain(args []string) {
 		case "first-use":
 			firstUse(seed, atoiOr(args, 2, 300))
 			return
+		case "positions":
+			positions(seed, atoiOr(args, 2, 1))
+			return
 		}
 	}
 	rounds, _ := strconv.Atoi(args[1])
@@ -476,4 +479,172 @@ func firstUse(seed int64, rounds int) {
 	}
 	verifhook.SetMode(verifhook.Off)
 	fmt.Printf("ok scenario=first-use rounds=%d woken-by-first-signal=%d\n", rounds, early)
+}
+
+// positions — directed scenario "give-up positions":
+//
+//	c13-cond-stress <seed> positions <repeats>
+//
+// For k in {1,2,3,4} persistent waiters parked in a KNOWN order (each is started only after the previous one is in
+// the list), every position p (first, middle, last) — and the combination "last, then the new last" — is cancelled
+// while the others stay parked; then n in {1,2} new waiters arrive; then either (a) one Broadcast: every waiter
+// still present (old and new) must return nil, or (b) exactly m Signals for the m present waiters: all m must
+// return nil — and a probe waiter with a short timeout afterwards must time out (no token left over).
+// Only hang bounds of seconds. Reports kind=broadcast / kind=lost-signal / kind=invented-wakeup with the pattern.
+func positions(seed int64, repeats int) {
+	verifhook.SetMode(verifhook.Chaos)
+	cases := 0
+	for rep := 0; rep < repeats; rep++ {
+		for k := 1; k <= 4; k++ {
+			var patterns [][]int
+			for p := 0; p < k; p++ {
+				patterns = append(patterns, []int{p})
+			}
+			if k >= 3 {
+				patterns = append(patterns, []int{k - 1, k - 2}) // the last, then the new last
+			}
+			for _, pat := range patterns {
+				for n := 1; n <= 2; n++ {
+					for mode := 0; mode < 2; mode++ {
+						cases++
+						if msg := positionsCase(k, pat, n, mode == 0); msg != "" {
+							fmt.Println(msg)
+							dump()
+							return
+						}
+					}
+				}
+			}
+		}
+	}
+	verifhook.SetMode(verifhook.Off)
+	fmt.Printf("ok scenario=positions cases=%d\n", cases)
+}
+
+type posWaiter struct {
+	name   string
+	cancel context.CancelFunc
+	ret    chan error
+}
+
+func positionsCase(k int, cancelPat []int, n int, broadcast bool) string {
+	l := &ownedMutex{}
+	c := syncx.NewCond(l)
+	started := 0 // protected by l
+	modeName := "signals"
+	if broadcast {
+		modeName = "broadcast"
+	}
+	pattern := fmt.Sprintf("waiters=%d cancelled-positions=%v new-waiters=%d then=%s", k, cancelPat, n, modeName)
+	// park one waiter and return once it is in the list
+	park := func(name string) (*posWaiter, string) {
+		ctx, cancel := context.WithCancel(context.Background())
+		w := &posWaiter{name: name, cancel: cancel, ret: make(chan error, 1)}
+		l.Lock()
+		want := started + 1
+		l.Unlock()
+		go func() {
+			l.Lock()
+			started++
+			err := c.Wait(ctx)
+			l.Unlock()
+			w.ret <- err
+		}()
+		dl := time.Now().Add(bound)
+		for {
+			l.Lock()
+			ok := started >= want
+			l.Unlock()
+			if ok {
+				return w, ""
+			}
+			if time.Now().After(dl) {
+				return nil, fmt.Sprintf("VIOLATION kind=enqueue-hang scenario=positions %s: waiter %s did not enqueue", pattern, name)
+			}
+			runtime.Gosched()
+		}
+	}
+	var present []*posWaiter
+	for i := 0; i < k; i++ {
+		w, msg := park(fmt.Sprintf("old%d", i))
+		if msg != "" {
+			return msg
+		}
+		present = append(present, w)
+	}
+	for _, p := range cancelPat {
+		w := present[p]
+		w.cancel()
+		select {
+		case err := <-w.ret:
+			if !errors.Is(err, context.Canceled) {
+				return fmt.Sprintf("VIOLATION kind=invented-wakeup scenario=positions %s: cancelled waiter %s returned %v although nobody signalled", pattern, w.name, err)
+			}
+		case <-time.After(bound):
+			return fmt.Sprintf("VIOLATION kind=cancelled-stuck scenario=positions %s: cancelled waiter %s did not return", pattern, w.name)
+		}
+		present = append(present[:p:p], present[p+1:]...)
+	}
+	for i := 0; i < n; i++ {
+		w, msg := park(fmt.Sprintf("new%d", i))
+		if msg != "" {
+			return msg
+		}
+		present = append(present, w)
+	}
+	m := len(present)
+	kind := "lost-signal"
+	if broadcast {
+		kind = "broadcast"
+		c.Broadcast()
+	} else {
+		for i := 0; i < m; i++ {
+			c.Signal()
+		}
+	}
+	deadline := time.After(bound)
+	var parked []string
+	for _, w := range present {
+		select {
+		case err := <-w.ret:
+			if err != nil {
+				return fmt.Sprintf("VIOLATION kind=wrong-error scenario=positions %s: waiter %s returned %v", pattern, w.name, err)
+			}
+		case <-deadline:
+			parked = append(parked, w.name)
+			deadline = time.After(10 * time.Millisecond) // the bound has elapsed once: only collect the others
+		}
+	}
+	if len(parked) > 0 {
+		what := fmt.Sprintf("%d Signals for the %d waiters present", m, m)
+		if broadcast {
+			what = fmt.Sprintf("Broadcast with %d waiters present", m)
+		}
+		for _, w := range present {
+			w.cancel()
+		}
+		return fmt.Sprintf("VIOLATION kind=%s scenario=positions %s: %s (queue order %s), still parked after %v: %v",
+			kind, pattern, what, names(present), bound, parked)
+	}
+	// nothing may be left over: a probe must time out
+	pctx, pcancel := context.WithTimeout(context.Background(), 2*time.Millisecond)
+	defer pcancel()
+	l.Lock()
+	err := c.Wait(pctx)
+	l.Unlock()
+	if err == nil {
+		return fmt.Sprintf("VIOLATION kind=invented-wakeup scenario=positions %s: a probe Wait after everything was consumed returned nil", pattern)
+	}
+	return ""
+}
+
+func names(ws []*posWaiter) string {
+	s := "["
+	for i, w := range ws {
+		if i > 0 {
+			s += " "
+		}
+		s += w.name
+	}
+	return s + "]"
 }
